@@ -347,6 +347,16 @@ def _receive_cer(ctx: Ctx, model, nc, P, K):
                      "connection is not put into PEER_CLOSING before the CEA is queued")
         if any(fl in g.reach([n], include_starts=False) for fl in flags + assigns):
             ctx.fail(cons + "#ready", g.loc(n), "an unknown peer's connection can become ready")
+    if od:
+        from ..effects import effects_of as _eo
+        ge_ = cfg_of(f, effects=_eo(model))
+        odn = [x for x in ge_.nodes if x.kind == "stmt" and getattr(x.ast, "lineno", -1) == od[0].ast.lineno]
+        ctx.inst("receive_cer:unknown-peer#undecodable")
+        if odn and "UnicodeDecodeError" in (odn[0].raises or ()):
+            ctx.fail("receive_cer:unknown-peer#undecodable", g.loc(od[0]), f"`{od[0].text(70)}` raises "
+                     f"UnicodeDecodeError for an Origin-Host that is not valid UTF-8: the generic error "
+                     f"handler answers 5012 and the connection stays open, instead of 3010 followed by "
+                     f"closing for this (necessarily unknown) peer")
     if od and ".lower()" not in ast.unparse(od[0].ast.value):
         ctx.fail("receive_cer:unknown-peer#case", g.loc(od[0]), "the Origin-Host is not compared "
                  "case-insensitively with the configured peers")
